@@ -371,9 +371,3 @@ Example ex_owner_change :
     [NTransfer (Some A) (Some B) acom].
 Proof. vm_compute. repeat split; reflexivity. Qed.
 End Ex.
-
-(** Source constants.  The literals of the model behind this property are tied to the
-    constants of /repo's Go sources (Gen/Params.v, regenerated from the working tree on
-    every run) in Proofs/TiesNNS.v; requiring that file here makes the obligations of this
-    property fail when a constant it depends on is edited in the source. *)
-Require Verif.Proofs.TiesNNS.
